@@ -1191,6 +1191,15 @@ func boundaryFamily() []nsx.Input {
 				} {
 					sc := fmt.Sprintf("send [USD %d] (\n  source = {\n%s  }\n  destination = @b\n)\n", amt, shape)
 					out = append(out, nsx.Input{Script: sc, Vars: map[string]string{}, Balances: bal, Meta: map[string]map[string]string{}, Note: "boundary:capped-ordered-source-revisits-account"})
+					// and a later send that relies on what the first one handed back to the account
+					for _, later := range []string{"send [USD *] (\n  source = @a\n  destination = @d\n)\n", fmt.Sprintf("send [USD %d] (\n  source = @a\n  destination = @d\n)\n", b+50)} {
+						out = append(out, nsx.Input{Script: sc + later, Vars: map[string]string{}, Balances: bal, Meta: map[string]map[string]string{}, Note: "boundary:capped-ordered-source-revisits-account"})
+					}
+					// percentages with a zero right after the decimal point
+					if amt == 110 {
+						pc := fmt.Sprintf("send [USD 10000] (\n  source = @world\n  destination = {\n    %s to @b\n    remaining to @d\n  }\n)\n", []string{"2.05%", "10.01%", "0.05%", "1.005%"}[len(out)%4])
+						out = append(out, nsx.Input{Script: pc, Vars: map[string]string{}, Balances: bal, Meta: map[string]map[string]string{}, Note: "boundary:capped-ordered-source-revisits-account"})
+					}
 				}
 			}
 		}
